@@ -211,9 +211,9 @@ def where_raised(e):
 
 class Rec:
     """What one checked step reports."""
-    __slots__ = ('violations', 'outcome', 'dead')
+    __slots__ = ('violations', 'outcome', 'dead', 'scores')
 
-    def __init__(self): self.violations = []; self.outcome = None; self.dead = False
+    def __init__(self): self.violations = []; self.outcome = None; self.dead = False; self.scores = None
 
     def v(self, key, what, dead=True):
         self.violations.append((key, what))
@@ -227,7 +227,12 @@ def r6(x):
 
 def do_step(L, d, op, rec=None, probe=False):
     """Apply one step to the real learner.  With `rec` the oracle is evaluated; without, exactly the same calls are made
-    (replay of an already checked prefix).  `probe`: only the predict part (is the learner still able to predict?).
+    (replay of an already checked prefix).  Step kinds (op[2]):
+      own / log / tiny / micro   predict, score of every offered action (not Corral), learn (see module docstring)
+      predict                    predict only - a query that is not followed by a learn
+      score                      score of every offered action only (not Corral)
+      learn                      learn of the first offered action with logged probability .5, without a query before it (not Corral)
+    `probe`: predict and score, no learn (is the learner still able to answer?).
     Returns False when the learner cannot be used any further."""
     sname, reward, mode = op
     mk, ctx, kind = SETS[sname]
@@ -237,31 +242,37 @@ def do_step(L, d, op, rec=None, probe=False):
     corral = is_corral(d)
     K = lambda m, f='': (fam, m, f)
     p_bars = list(L._p_bars) if (corral and rec is not None) else None
+    if corral and mode in ('score', 'learn'): raise HarnessError(f'step kind {mode} is not defined for Corral')
+    a = p = idx = None
+    kw = {}
+    do_predict = mode not in ('score', 'learn')
+    do_score = (not corral) and mode not in ('predict', 'learn')
 
     # -- predict
-    try:
-        pred = L.predict(ctx, A)
-    except Exception as e:   # noqa
-        if rec is None: raise HarnessError(f'replay diverged: predict raised {e!r}')
-        rec.v(K(f'predict raises {where_raised(e)}'), f'predict({ctx!r}, {A!r}) raised {e!r}'); return False
-    if not isinstance(pred, tuple) or len(pred) != (3 if corral else 2):
-        if rec is None: raise HarnessError('replay diverged: prediction shape')
-        rec.v(K('malformed prediction'), f'predict returned {pred!r}'); return False
-    a, p = pred[0], pred[1]
-    kw = pred[2] if corral else {}
-    idx = None
-    for i, x in enumerate(A):
-        if a is x or a == x: idx = i; break
-    if rec is not None:
-        if idx is None:
-            rec.v(K('predicted action not in the offered set'), f'predict({ctx!r}, {A!r}) returned action {a!r}'); return False
-        if not isinstance(p, (int, float)) or isinstance(p, bool) or not (0 < p <= 1 + (1e-4 if corral else 1e-9)):
-            rec.v(K('returned probability not in (0,1]'), f'predict({ctx!r}, {A!r}) returned ({a!r}, {p!r})'); return False
-    elif idx is None:
-        raise HarnessError('replay diverged: action')
+    if do_predict:
+        try:
+            pred = L.predict(ctx, A)
+        except Exception as e:   # noqa
+            if rec is None: raise HarnessError(f'replay diverged: predict raised {e!r}')
+            rec.v(K(f'predict raises {where_raised(e)}'), f'predict({ctx!r}, {A!r}) raised {e!r}'); return False
+        if not isinstance(pred, tuple) or len(pred) != (3 if corral else 2):
+            if rec is None: raise HarnessError('replay diverged: prediction shape')
+            rec.v(K('malformed prediction'), f'predict returned {pred!r}'); return False
+        a, p = pred[0], pred[1]
+        kw = pred[2] if corral else {}
+        idx = None
+        for i, x in enumerate(A):
+            if a is x or a == x: idx = i; break
+        if rec is not None:
+            if idx is None:
+                rec.v(K('predicted action not in the offered set'), f'predict({ctx!r}, {A!r}) returned action {a!r}'); return False
+            if not isinstance(p, (int, float)) or isinstance(p, bool) or not (0 < p <= 1 + (1e-4 if corral else 1e-9)):
+                rec.v(K('returned probability not in (0,1]'), f'predict({ctx!r}, {A!r}) returned ({a!r}, {p!r})'); return False
+        elif idx is None:
+            raise HarnessError('replay diverged: action')
 
     # -- score (deterministic-policy learners): same calls in replay mode, score may touch defaultdicts
-    if not corral:
+    if do_score:
         scores = []
         for x in A:
             try:
@@ -274,11 +285,12 @@ def do_step(L, d, op, rec=None, probe=False):
                 rec.v(K('score negative or not a number'), f'scores over {A!r}: {scores!r}'); return False
             if abs(sum(scores) - 1) > 1e-9:
                 rec.v(K('scores do not sum to 1'), f'scores over {A!r}: {scores!r} (sum {sum(scores)!r})'); return False
-            if abs(scores[idx] - p) > 1e-9:
+            if do_predict and abs(scores[idx] - p) > 1e-9:
                 rec.v(K('returned probability differs from score of the returned action'),
                       f'predict({ctx!r}, {A!r}) returned ({a!r}, {p!r}) but scores are {scores!r}'); return False
+            rec.scores = tuple(scores)
             rec.outcome = (fam, sname, idx, r6(p), tuple(r6(s) for s in scores))
-    elif rec is not None:
+    elif corral and rec is not None:
         info = kw.get('info') if isinstance(kw, dict) else None
         if not (isinstance(info, tuple) and len(info) == 3 and len(info[0]) == len(p_bars)):
             rec.v(K('malformed prediction'), f'predict returned kwargs {kw!r}'); return False
@@ -291,18 +303,22 @@ def do_step(L, d, op, rec=None, probe=False):
             rec.v(K('returned probability is not the pmf value of the returned action'),
                   f'offered {A!r}, base proposals {list(base_actions)!r} with weights {p_bars!r}: returned ({a!r}, {p!r}), pmf value {want!r}'); return False
         rec.outcome = (fam, sname, idx, r6(p), tuple(ba == a for ba in base_actions))
-    if probe: return True
+    elif rec is not None and do_predict:
+        rec.outcome = (fam, sname, idx, r6(p), 'predict only')
+    if probe or mode in ('predict', 'score'): return True
 
     # -- learn
     if mode == 'own':
         la, lp = a, p
+    elif mode == 'learn':
+        la, lp = A[0], 0.5
     else:
         la, lp = A[(idx + 1) % len(A)], LOG_PROB[mode]
     try:
         L.learn(ctx, la, reward, lp, **kw)
     except Exception as e:   # noqa
         if rec is None: raise HarnessError(f'replay diverged: learn raised {e!r}')
-        rec.v(K(f'learn raises {where_raised(e)}'), f'learn({ctx!r}, {la!r}, {reward!r}, {lp!r}) after predict -> ({a!r}, {p!r}) raised {e!r}'); return False
+        rec.v(K(f'learn raises {where_raised(e)}'), f'learn({ctx!r}, {la!r}, {reward!r}, {lp!r})' + (f' after predict -> ({a!r}, {p!r})' if do_predict else '') + f' raised {e!r}'); return False
 
     if corral and rec is not None:
         for name in ('_ps', '_p_bars'):
